@@ -90,6 +90,9 @@ func scalarClass(name string, p *prg) *big.Int {
 	case "-lam":
 		return new(big.Int).Sub(modR, lambdaGLV)
 	default:
+		if v := montClass(name); v != nil {
+			return v
+		}
 		x := p.big(300)
 		return x.Mod(x, modR)
 	}
